@@ -6,7 +6,44 @@ from .core import CTX, V, NONEV, INT, List, Set, Map, Tup, OutsideSubset, fresh,
 from .state import Outcome, STATIC, CLOSURE, MODULE
 
 
+def _append_loop_as_comprehension(self, s):
+    """`for x in E: [if c:] L.append(e)` with nothing else in the body is `L.extend([e for x in E [if c]])`."""
+    if s.orelse or len(s.body) != 1 or not isinstance(s.target, (ast.Name, ast.Tuple)):
+        return None
+    b = s.body[0]
+    conds = []
+    while isinstance(b, ast.If) and not b.orelse and len(b.body) == 1:
+        conds.append(b.test)
+        b = b.body[0]
+    if not (isinstance(b, ast.Expr) and isinstance(b.value, ast.Call) and isinstance(b.value.func, ast.Attribute)
+            and b.value.func.attr == "append" and isinstance(b.value.func.value, ast.Name) and len(b.value.args) == 1
+            and not b.value.keywords):
+        return None
+    lst = b.value.func.value
+    names = {n.id for n in ast.walk(s.target) if isinstance(n, ast.Name)}
+    if lst.id in names or any(isinstance(n, ast.Name) and n.id == lst.id for c in conds + [b.value.args[0], s.iter] for n in ast.walk(c)):
+        return None
+    comp = ast.ListComp(elt=b.value.args[0], generators=[ast.comprehension(target=s.target, iter=s.iter, ifs=conds, is_async=0)])
+    stmt = ast.Expr(value=ast.Call(func=ast.Attribute(value=ast.Name(id=lst.id, ctx=ast.Load()), attr="extend", ctx=ast.Load()),
+                                   args=[comp], keywords=[]))
+    ast.copy_location(stmt, s)
+    ast.fix_missing_locations(stmt)
+    return stmt
+
+
 def st_For(self, s, st):
+    ordinal = self.ordinals.get(id(s))
+    if self.contract is not None and ordinal is not None and ordinal not in self.contract.loops:
+        summ = self._append_loop_as_comprehension(s)
+        if summ is not None:
+            try:
+                r = self.exec_stmt(summ, st)
+                self.notes.append("loop at line %s read as the list comprehension it is (append-only body)" % s.lineno)
+                return r
+            except OutsideSubset as ex:
+                self.notes.append("loop at line %s could not be read as a comprehension: %s" % (s.lineno, ex.args[0]))
+                if __import__("os").environ.get("PYVC_DEBUG"):
+                    print("summarise failed:", ex.args[0])
     outs = []
     for st1, seq in self.ev_iter(s.iter, st):
         if seq.ty is STATIC:
